@@ -64,6 +64,8 @@ def fillNode (mode seed idx : Nat) (n : Node) : Node :=
         if n.enc.nbits ≤ 0 ∨ n.enc.nbits > 64 then n else
         let raw := pickRaw mode seed idx n.enc.nbits.toNat
         -- a new reference value of -1 cannot be told from "missing" (known limitation): avoid it
+        -- a 64-bit field with its top bit set does not fit the library's int64 storage (known limitation)
+        let raw := if n.enc.nbits = 64 ∧ raw ≠ missingIvalue 64 then raw % 2^62 else raw
         let raw := if n.enc.type = .chngRef ∧ raw ≠ missingIvalue n.enc.nbits ∧ cvtIvalue raw n.enc.nbits = -1 then 0 else raw
         (setRaw n raw).1
       | _ => n
